@@ -567,9 +567,9 @@ def parse_body(name, kind, lines):
             b.locals[int(m.group(1))] = m.group(2)
         b.ret = hdr[j + 1:].strip()[3:-2].strip()
     else:
-        m = _HDR_CONST.match(hdr) or re.match(r"^(.*?): (.*) = (.*)$", hdr)
-        rest = m.groups()[-1]
-        b.ret = m.groups()[-2]
+        hp = split_const_header(hdr)
+        rest = hp[2]
+        b.ret = hp[1]
         if rest != "{":
             b.const_value = rest.rstrip(";")
             return b
@@ -627,6 +627,31 @@ def parsed_block(body, bbname):
     return r
 
 
+def split_const_header(line):
+    """`const NAME: TYPE = REST` -> (NAME, TYPE, REST); NAME may contain `<impl at f.rs:1:2: 3:4>`"""
+    s = re.sub(r"^(const |static mut |static )", "", line)
+    depth = 0
+    i = 0
+    n = len(s)
+    while i < n - 1:
+        c = s[i]
+        if c in "<([{":
+            depth += 1
+        elif c in ")]}":
+            depth -= 1
+        elif c == ">" and s[i - 1] not in "-=":
+            depth -= 1
+        elif depth == 0 and c == ":" and s[i + 1] == " ":
+            name = s[:i]
+            rest = s[i + 2:]
+            j = rest.rfind(" = ")
+            if j < 0:
+                return None
+            return name, rest[:j], rest[j + 3:]
+        i += 1
+    return None
+
+
 class Crate:
     """Index over a whole MIR dump; bodies parsed on demand."""
 
@@ -663,11 +688,11 @@ class Crate:
                 i = j + 1
                 continue
             else:
-                m = re.match(r"^(?:const |static mut |static )?(.*?): (.*) = (.*)$", line)
-                if not m:
+                hp = split_const_header(line)
+                if not hp:
                     i += 1
                     continue
-                name = m.group(1)
+                name = hp[0]
                 kind = "const"
                 if not line.endswith("{"):
                     self.items.setdefault(name, []).append((kind, i, i))
